@@ -16,6 +16,10 @@ import (
 // that are initialised once and never assigned again.
 func verifGlobals() bool {
 	return ErrZeroDivision != nil && ErrType != nil && ErrInvalidOperator != nil &&
+		ErrWrongNumArguments != nil && ErrStackOverflow != nil && ErrIndexOutOfBounds != nil &&
+		ErrInvalidIndex != nil && ErrNotIterable != nil && ErrNotIndexable != nil &&
+		ErrNotIndexAssignable != nil && ErrNotCallable != nil && ErrNotImplemented != nil &&
+		ErrSymbolLimit != nil && ErrVMAborted != nil &&
 		ErrZeroDivision != ErrType && ErrInvalidOperator != ErrType && ErrInvalidOperator != ErrZeroDivision &&
 		Undefined != nil && specIsUndefined(Undefined) && specUndefinedPtr() != nil &&
 		True == Bool(true) && False == Bool(false)
@@ -706,4 +710,25 @@ func specOperandAt(ins []byte, op Opcode, i int) int {
 		return int(ins[off+3]) | int(ins[off+2])<<8 | int(ins[off+1])<<16 | int(ins[off])<<24
 	}
 	return 0
+}
+
+// ---------------------------------------------------------------------------
+// Calls (C02, C03, C14)
+
+// vmCallOK: what the VM guarantees when a CALL instruction with numArgs
+// arguments on top of the stack dispatches to a compiled function: the callee
+// object sits below the arguments, the frame of locals fits into the stack,
+// the instruction has its two operand bytes and a successor.
+func vmCallOK(vm *VM, cfunc *CompiledFunction, numArgs int) bool {
+	return vmFrameOK(vm) && cfunc != nil &&
+		0 <= numArgs && numArgs < vm.sp &&
+		0 <= cfunc.NumParams && cfunc.NumParams <= cfunc.NumLocals &&
+		vm.sp-numArgs+cfunc.NumLocals < stackSize &&
+		numArgs < 256 && cfunc.NumLocals < 256+1 &&
+		verifrt.Forall(func(k int) bool {
+			return !(vm.sp-numArgs <= k && k < vm.sp) || vm.stack[k] != nil
+		}) &&
+		vm.ip < len(vm.curInsts)-4 &&
+		0 <= vm.frameIndex && vm.frameIndex < frameSize &&
+		0 <= vm.curFrame.basePointer && vm.curFrame.basePointer < stackSize && vm.curFrame.basePointer+cfunc.NumLocals < stackSize
 }
